@@ -173,7 +173,7 @@ class H1(Case):
              "numpy zeros(dtype='complex128') in oqupy.gradient -> object array (NpProxy)")
     env = {"noconj": True, "np_proxy_modules": NP_PROXY}
 
-    def __init__(self, nenv, N, bond, rank=4, controls="none", part="all", d=2, timeout_s=300, som=False, cplx=False):
+    def __init__(self, nenv, N, bond, rank=4, controls="none", part="all", d=2, timeout_s=300, som=False, cplx=False, tlayout="C"):
         """part: 'all' | 'final' (last step only) | 'nonfinal' (all other steps)
         som: put the difference into sum-of-monomials normal form with z3's rewriter before the query
         (vf/poly.py); needed for the larger identities, slower than the plain query for the small ones"""
@@ -182,7 +182,11 @@ class H1(Case):
         # cplx: complex-valued initial state and linear target (non-Hermitian in general), so that the
         # objective and every gradient entry have an imaginary part that is an obligation of its own
         self.cplx = cplx
-        tag = "env%d_N%d_b%d_r%d_%s%s%s" % (nenv, N, bond, rank, controls, "" if d == 2 else "_d%d" % d, "_cplx" if cplx else "")
+        # tlayout "F": the (non-symmetric) target derivative is handed over column-major (what target.T views,
+        # np.asfortranarray or a callable returning 2*rho.T produce): same logical matrix
+        self.tlayout = tlayout
+        tag = "env%d_N%d_b%d_r%d_%s%s%s%s" % (nenv, N, bond, rank, controls, "" if d == 2 else "_d%d" % d, "_cplx" if cplx else "",
+                                            "" if tlayout == "C" else "_targetF")
         if part == "nonfinal" and nenv >= 2 and rank == 4:
             # defect class: several environments whose MPO tensors do not commute on the
             # system leg, derivative w.r.t. a propagator of a step before the last one
@@ -214,12 +218,13 @@ class H1(Case):
         control, pre, post = make_controls(inp, d, CONTROL_SPECS[self.controls](N), N, sparse=self.controls.endswith('sparse'))
         system = EntrySystem(inp, d, P1, P2)
         params = np.zeros((2 * N, D * D))
+        tgt_arg = np.asfortranarray(target.copy()) if self.tlayout == "F" else target.copy()
         if control is None:
-            res = gr.state_gradient(system, rho0, target.copy(), pts, params, progress_type="silent")
+            res = gr.state_gradient(system, rho0, tgt_arg, pts, params, progress_type="silent")
             grad = res["gradient"]
         else:
             # state_gradient has no `control` argument: the two calls it makes
-            gp, dyn = gr.compute_gradient_and_dynamics(system=system, initial_state=rho0, target_derivative=target.copy(),
+            gp, dyn = gr.compute_gradient_and_dynamics(system=system, initial_state=rho0, target_derivative=tgt_arg,
                                                        process_tensors=pts, parameters=params, control=control,
                                                        progress_type="silent")
             grad = gr._chain_rule(adjoint_tensor=gp, dprop_dparam=system.get_propagator_derivatives(0.1, params),
@@ -365,10 +370,10 @@ class H4(Case):
     stubs = H1.stubs
     env = {"noconj": True, "np_proxy_modules": NP_PROXY}
 
-    def __init__(self, nenv, N, bond, d=2):
-        self.nenv, self.N, self.bond, self.d = nenv, N, bond, d
-        self.id = "H4/callable_target_env%d_N%d_b%d" % (nenv, N, bond)
-        self.bounds = {"d": d, "envs": nenv, "N": N, "bond": bond}
+    def __init__(self, nenv, N, bond, d=2, tlayout="C"):
+        self.nenv, self.N, self.bond, self.d, self.tlayout = nenv, N, bond, d, tlayout
+        self.id = "H4/callable_target_env%d_N%d_b%d%s" % (nenv, N, bond, "" if tlayout == "C" else "_targetF")
+        self.bounds = {"d": d, "envs": nenv, "N": N, "bond": bond, "returned_target_memory_layout": tlayout}
 
     def run(self, inp):
         d, N = self.d, self.N
@@ -386,7 +391,7 @@ class H4(Case):
 
         def target_fn(state):
             seen.append(np.array(state))
-            return target.copy()
+            return np.asfortranarray(target.copy()) if self.tlayout == "F" else target.copy()
         system = EntrySystem(inp, d, P1, P2)
         params = np.zeros((2 * N, D * D))
         res = gr.state_gradient(system, rho0, target_fn, pts, params, progress_type="silent")
@@ -689,6 +694,7 @@ def cases(tier):
         H4(1, 2, 2),
         H5(2, 1),
         H1(1, 2, 1, som=True, cplx=True), H2(2, 1, cplx=True),
+        H1(1, 2, 1, som=True, cplx=True, tlayout="F"), H4(1, 2, 1, tlayout="F"),
         H6(1, zero=True), H6(2, zero=True), H6(1), H6(2),
     ]
     if tier == "thorough":
@@ -702,6 +708,6 @@ def cases(tier):
             H1(3, 2, 1, part="final", timeout_s=900, som=True),
             H1(2, 3, 2, rank=3, timeout_s=900, som=True),
             H2(3, 2), H3(2, 3, 2, 3, "ends"), H3(1, 3, 2, 4, "ends"), H4(2, 2, 1), H5(2, 2, dts=(0.1, 0.25)),
-            H1(1, 2, 2, som=True, cplx=True), H1(2, 2, 1, part="final", som=True, cplx=True), H2(2, 2, cplx=True), H6(2, N=3), H6(2, N=3, zero=True),
+            H1(1, 2, 2, som=True, cplx=True), H1(2, 2, 1, part="final", som=True, cplx=True), H2(2, 2, cplx=True), H6(2, N=3), H6(2, N=3, zero=True), H1(2, 2, 1, part="final", som=True, tlayout="F"), H4(2, 2, 1, tlayout="F"),
         ]
     return cs
